@@ -115,7 +115,27 @@ def repo_go_line():
     return "1.12"
 
 
+class build_lock:
+    """serialises the build steps of checks that run at the same time in one /verif (they share .build and lean/.lake)"""
+    def __enter__(self):
+        import fcntl
+        os.makedirs(BUILD, exist_ok=True)
+        self.f = open(os.path.join(BUILD, "lock"), "w")
+        fcntl.flock(self.f, fcntl.LOCK_EX)
+        return self
+
+    def __exit__(self, *a):
+        import fcntl
+        fcntl.flock(self.f, fcntl.LOCK_UN)
+        self.f.close()
+
+
 def build_go():
+    with build_lock():
+        return build_go_locked()
+
+
+def build_go_locked():
     """Build the harness (with hooks) and the real binary from /repo's working tree."""
     os.makedirs(BUILD, exist_ok=True)
     ov = make_overlay()
@@ -123,7 +143,7 @@ def build_go():
     gomod = ("module verifharness\n\ngo %s\n\nrequire github.com/knz/shakespeare v0.0.0\n\n"
              "replace github.com/knz/shakespeare => %s\n" % (repo_go_line(), REPO))
     write_if_changed(os.path.join(HARNESS, "go.mod"), gomod)
-    shutil.copyfile(os.path.join(REPO, "go.sum"), os.path.join(HARNESS, "go.sum"))
+    write_if_changed(os.path.join(HARNESS, "go.sum"), open(os.path.join(REPO, "go.sum")).read())
     t0 = time.time()
     rc, out = sh(["go", "build", "-tags", "verif", "-overlay", ov, "-o",
                   os.path.join(BUILD, "vharness"), "./cmd/vharness"], cwd=HARNESS, env=GOENV)
@@ -142,7 +162,8 @@ def build_go():
 
 
 def lake_build(targets):
-    rc, out = sh(["lake", "build"] + targets, cwd=LEAN)
+    with build_lock():
+        rc, out = sh(["lake", "build"] + targets, cwd=LEAN)
     return rc == 0, out
 
 
